@@ -48,49 +48,83 @@ func runC33(c *Ctx) {
 		if cb == nil {
 			c.violate("C33.dispatch-guards", "application callback", op.Pos(), "callback dispatch through onPacketCbFuncs not found")
 		} else {
-			oneHop, bcast := c33Flags(c, op)
-			sameSrc := wSame("peer is the source", `^\$1\.ID\(\)$`, `^\$0\.src$`)
-			diffSrc := wDiffer("peer is not the source (relayed)", `^\$1\.ID\(\)$`, `^\$0\.src$`)
-			notSelf := wDiffer("src ≠ self", `^\$r\.ID\(\)$`, `^\$0\.src$`)
-			role := wTrue("resolved root role", `^\$1\.HasRole\(`)
-			put := wTrue("first sight", `^\$r\.packetPool\.Put\(\$0\)$`)
-			alts := altGuards(cb.Block())
-			flag := func(gs []Guard, phi ssa.Value, pol bool) bool {
-				if phi == nil {
-					return false
-				}
-				for _, g := range gs {
-					if g.Cond == phi && g.Pol == pol {
-						return true
+			// decided over the atoms the dispatcher tests, for every truth assignment under which the
+			// callback is reachable (independent of how the tests are spelled, ordered or named)
+			peerDest, anyDest := destPeer(c), func() int64 { v, _ := c.constVal(pkg, "p2pDestAny"); return v }()
+			rootRole, _ := c.constVal(pkg, "p2pRoleRoot")
+			sim := &boolSim{fn: op, atoms: func(v ssa.Value) (string, bool, bool) {
+				switch x := v.(type) {
+				case *ssa.BinOp:
+					if x.Op != token.EQL && x.Op != token.NEQ {
+						return "", false, false
+					}
+					l, r := x.X, x.Y
+					if _, isK := l.(*ssa.Const); isK {
+						l, r = r, l
+					}
+					k, isK := constInt(r)
+					if !isK {
+						return "", false, false
+					}
+					pol := x.Op == token.EQL
+					switch render(l) {
+					case "$0.ttl":
+						if k == 0 {
+							return "ttl0", pol, true
+						}
+					case "$0.dest":
+						if k == peerDest {
+							return "destPeer", pol, true
+						}
+						if k == anyDest {
+							return "destAny", pol, true
+						}
+					}
+				case *ssa.Call:
+					switch r := render(x); {
+					case r == "$1.ID().Equal($0.src)" || r == "$0.src.Equal($1.ID())":
+						return "fromSource", true, true
+					case r == "$r.ID().Equal($0.src)" || r == "$0.src.Equal($r.ID())":
+						return "selfSource", true, true
+					case r == fmt.Sprintf("$1.HasRole(%d)", rootRole) || r == fmt.Sprintf("$1.Role().Has(%d)", rootRole):
+						return "rootRole", true, true
+					case r == "$r.packetPool.Put($0)":
+						return "firstSight", true, true
 					}
 				}
-				return false
-			}
+				return "", false, false
+			}}
 			okA, okB, okC, okD := true, true, true, true
 			bad := ""
-			for _, gs := range alts {
-				_, s := holds(gs, sameSrc)
-				_, d := holds(gs, diffSrc)
-				_, r := holds(gs, role)
-				_, p := holds(gs, put)
-				_, ns := holds(gs, notSelf)
-				if !(flag(gs, oneHop, false) || s) {
-					okA, bad = false, guardsString(gs)
+			nReach := 0
+			forAllAssignments([]string{"ttl0", "destPeer", "destAny", "fromSource", "selfSource", "rootRole", "firstSight"}, func(env map[string]bool) {
+				if env["destPeer"] && env["destAny"] {
+					return // one destination byte
 				}
-				if !(flag(gs, bcast, false) || d || r) {
-					okB, bad = false, guardsString(gs)
+				if !sim.reachable(cb, env) {
+					return
 				}
-				if !ns {
-					okC, bad = false, guardsString(gs)
+				nReach++
+				oneHop := !env["ttl0"] || env["destPeer"]
+				desc := fmt.Sprintf("ttl==0:%v dest==peer:%v dest==any:%v from its source:%v src==self:%v root role:%v first sight:%v", env["ttl0"], env["destPeer"], env["destAny"], env["fromSource"], env["selfSource"], env["rootRole"], env["firstSight"])
+				if oneHop && !env["fromSource"] {
+					okA, bad = false, desc
 				}
-				if !(flag(gs, oneHop, true) || p) {
-					okD, bad = false, guardsString(gs)
+				if env["destAny"] && env["ttl0"] && env["fromSource"] && !env["rootRole"] {
+					okB, bad = false, desc
 				}
-			}
-			if len(alts) == 0 {
+				if env["selfSource"] {
+					okC, bad = false, desc
+				}
+				if !oneHop && !env["firstSight"] {
+					okD, bad = false, desc
+				}
+			})
+			if nReach == 0 {
 				okA, okB, okC, okD = false, false, false, false
+				bad = "the callback is not reachable under any assignment (atoms not recognised)"
 			}
-			ev := fmt.Sprintf("%d path alternatives", len(alts))
+			ev := fmt.Sprintf("%d of 96 assignments deliver", nReach)
 			c.check(okA, "C33.dispatch-guards", "callback ⊢ one-hop packets only from their source peer", cb.Pos(), ev, "a path delivers a one-hop packet relayed by another peer: "+bad)
 			c.check(okB, "C33.dispatch-guards", "callback ⊢ originator broadcasts only from validators", cb.Pos(), ev, "a path delivers an originator broadcast without the resolved root role: "+bad)
 			c.check(okC, "C33.dispatch-guards", "callback ⊢ packet does not claim this node as source", cb.Pos(), ev, "a path delivers a packet whose source is this node: "+bad)
@@ -101,7 +135,22 @@ func runC33(c *Ctx) {
 		}
 		// role-source: the role consulted is the resolved one
 		nRole := 0
-		for _, cs := range c.calls(op, byMethod("HasRole", "HasRecvRole", "EqualsRole")) {
+		for _, cs := range c.calls(op, byMethod("HasRole", "HasRecvRole", "EqualsRole", "Has")) {
+			if methodName(cs.Common()) == "Has" {
+				r, _ := callArgs(cs.Common())
+				rr := render(r)
+				if rr != "$1.Role()" && rr != "$1.RecvRole()" {
+					continue
+				}
+				nRole++
+				c.check(rr == "$1.Role()", "C33.role-source", "origin authorised by the resolved role", cs.Pos(), "p.Role().Has(root)", "the dispatcher consults "+rr+": a role the remote peer merely claims")
+				_, a := callArgs(cs.Common())
+				if k, ok := constInt(a[0]); ok {
+					root, _ := c.constVal(pkg, "p2pRoleRoot")
+					c.check(k == root, "C33.role-source", "required role is root (validator)", cs.Pos(), "p2pRoleRoot", fmt.Sprintf("role %d", k))
+				}
+				continue
+			}
 			nRole++
 			c.check(methodName(cs.Common()) == "HasRole", "C33.role-source", "origin authorised by the resolved role", cs.Pos(), "p.HasRole(root)", "the dispatcher consults "+methodName(cs.Common())+": a role the remote peer merely claims")
 			_, a := callArgs(cs.Common())
@@ -113,9 +162,6 @@ func runC33(c *Ctx) {
 		if nRole == 0 {
 			c.violate("C33.role-source", "origin authorisation", op.Pos(), "no role check in the dispatcher")
 		}
-		oneHop, bcast := c33Flags(c, op)
-		c.check(oneHop != nil, "C33.flag-definitions", "one-hop ⇔ ttl ≠ 0 ∨ dest == peer", op.Pos(), "as stated", "the one-hop classification is not `ttl != 0 || dest == peer`")
-		c.check(bcast != nil, "C33.flag-definitions", "broadcast ⇔ dest == any ∧ ttl == 0", op.Pos(), "as stated", "the broadcast classification is not `dest == any && ttl == 0`")
 	}
 
 	// ---- atomic-put
@@ -229,39 +275,61 @@ func runC33Extra(c *Ctx) {
 		okWrap := false
 		desc := "scan cursor not recognised"
 		if cur != nil {
+			type nv struct {
+				l  Lin
+				gs []Guard
+			}
+			var next func(v ssa.Value, gs []Guard, d int) []nv
+			next = func(v ssa.Value, gs []Guard, d int) []nv {
+				if d > 4 {
+					return []nv{{linOf(v), gs}}
+				}
+				switch x := v.(type) {
+				case *ssa.BinOp:
+					if k, ok := constInt(x.Y); ok && (x.Op == token.SUB || x.Op == token.ADD) {
+						if x.Op == token.SUB {
+							k = -k
+						}
+						var out []nv
+						for _, n := range next(x.X, gs, d+1) {
+							l := n.l.add(Lin{T: map[string]int64{}, K: k}, 1)
+							out = append(out, nv{l, n.gs})
+						}
+						return out
+					}
+				case *ssa.Phi:
+					if x != cur {
+						var out []nv
+						for i, e := range x.Edges {
+							eg := append(append([]Guard{}, gs...), guardsOnEdge(x.Block().Preds[i], x.Block())...)
+							out = append(out, next(e, eg, d+1)...)
+						}
+						return out
+					}
+				}
+				return []nv{{linOf(v), gs}}
+			}
 			for i, e := range cur.Edges {
 				if !cur.Block().Dominates(cur.Block().Preds[i]) {
 					continue
 				}
-				bo, ok := e.(*ssa.BinOp)
-				if !ok || bo.Op != token.SUB {
-					desc = "cursor advances by " + render(e)
-					continue
-				}
-				if k, ok := constInt(bo.Y); !ok || k != 1 {
-					continue
-				}
-				var forms []string
+				vals := next(e, nil, 0)
 				good := 0
-				if merge, ok := bo.X.(*ssa.Phi); ok {
-					for k, ev := range merge.Edges {
-						gs := guardsOnEdge(merge.Block().Preds[k], merge.Block())
-						r := render(ev)
-						forms = append(forms, r)
-						_, atZero := holds(gs, wGE("cursor < 1", 0, t(-1, `^phi\(`)))
-						_, above := holds(gs, wGE("cursor ≥ 1", -1, t(1, `^phi\(`)))
-						switch {
-						case ev == ssa.Value(cur) && above:
-							good++
-						case r == "$r.numOfBucket" && atZero:
-							good++
-						}
+				var forms []string
+				curAtom := render(cur)
+				for _, n := range vals {
+					forms = append(forms, n.l.String())
+					_, atZero := holds(n.gs, wGE("cursor < 1", 0, t(-1, `^phi\(`)))
+					_, above := holds(n.gs, wGE("cursor ≥ 1", -1, t(1, `^phi\(`)))
+					switch {
+					case len(n.l.T) == 1 && n.l.T[curAtom] == 1 && n.l.K == -1 && above:
+						good++
+					case len(n.l.T) == 1 && n.l.T["$r.numOfBucket"] == 1 && n.l.K == -1 && atZero:
+						good++
 					}
-				} else {
-					forms = append(forms, render(bo.X))
 				}
-				desc = strings.Join(forms, " | ") + " − 1"
-				okWrap = good == 2 && len(forms) == 2
+				desc = strings.Join(forms, " | ")
+				okWrap = good == 2 && len(vals) == 2
 			}
 		}
 		c.check(okWrap, "C33.ring-scan", "the duplicate scan steps back one bucket and wraps from bucket 0 to the last bucket", f.Pos(), desc, "the scan cursor's step is "+desc+": after the ring wrapped some bucket is never consulted and a duplicate stored there is delivered again")
